@@ -464,8 +464,80 @@ pub fn family_as_ref(r: &mut Rng) -> Key {
     }
 }
 
-pub const N_FAMILIES: usize = 7;
-pub const FAMILY_NAMES: [&str; N_FAMILIES] = ["try_into", "from_str", "mul_like", "error", "from_into", "fmt_bounds", "as_ref"];
+/// Display-like derives with `rename_all`, on enums whose variant names are built from words that also
+/// occur in derive_more's own vocabulary (casing names): what a memo keyed by concatenated text confuses.
+pub fn family_rename_all(r: &mut Rng) -> Key {
+    const WORDS: &[&str] = &["Goat", "Lower", "Upper", "Pascal", "Camel", "Snake", "Screaming", "Kebab", "Case", "X", "Http", "Id"];
+    const CASINGS: &[&str] = &["lowercase", "UPPERCASE", "PascalCase", "camelCase", "snake_case", "SCREAMING_SNAKE_CASE", "kebab-case", "SCREAMING-KEBAB-CASE"];
+    let n = scaled(r, 1, 6);
+    let mut vs: Vec<String> = Vec::new();
+    let mut guard = 0;
+    while vs.len() < n && guard < 200 {
+        guard += 1;
+        let k = r.range(1, 3);
+        let v: String = (0..k).map(|_| *r.pick(WORDS)).collect();
+        if !vs.contains(&v) {
+            vs.push(v);
+        }
+    }
+    let name = ident(r, "Rn");
+    let casing = *r.pick(CASINGS);
+    let derive = *r.pick(&["Display", "Display", "Display", "Debug"]);
+    let attr = if derive == "Display" { "display" } else { "debug" };
+    let per_variant = r.chance(1, 4);
+    let body: Vec<String> = vs
+        .iter()
+        .map(|v| if per_variant && r.chance(1, 2) { format!("# [{attr} (rename_all = \"{}\")] {v}", r.pick(CASINGS)) } else { v.clone() })
+        .collect();
+    Key {
+        derive: derive.into(),
+        item: format!("# [{attr} (rename_all = \"{casing}\")] enum {name} {{ {} }}", body.join(" , ")),
+    }
+}
+
+/// Pre-1.0 attribute syntax (`fmt = "..."`, `types(..)`, `bound = "..."`) in every position — container,
+/// variant, field — of otherwise plain items: the derives' "legacy syntax" diagnostics.
+pub fn family_legacy(r: &mut Rng) -> Key {
+    let name = ident(r, "Lg");
+    let (derive, attr): (&str, &str) = *r.pick(&[("Display", "display"), ("Debug", "debug"), ("Debug", "debug"), ("From", "from"), ("Into", "into"), ("Binary", "binary")]);
+    let legacy: String = match attr {
+        "from" | "into" => r.pick(&["types (i64)", "types (i64 , u8)", "types (\"i64\")", "forward , types (u8)"]).to_string(),
+        _ => r.pick(&["fmt = \"Started\"", "fmt = \"{}\" , \"_0\"", "fmt = \"{_0}\"", "bound = \"T : Clone\"", "fmt = \"x\" , bound = \"T : Copy\""]).to_string(),
+    };
+    let place = r.below(3); // 0 container, 1 variant / first field, 2 last field
+    let a = format!("# [{attr} ({legacy})] ");
+    let item = if r.chance(1, 2) {
+        let n = r.range(1, 4);
+        let vs: Vec<String> = (0..n)
+            .map(|i| {
+                let pre = if place == 1 && i == 0 { a.as_str() } else { "" };
+                let fpre = if place == 2 && i == n - 1 { a.as_str() } else { "" };
+                match r.below(3) {
+                    0 => format!("{pre}V{i}"),
+                    1 => format!("{pre}V{i} ( {fpre}i32 )"),
+                    _ => format!("{pre}V{i} {{ {fpre}x : u8 }}"),
+                }
+            })
+            .collect();
+        format!("{}enum {name} {{ {} }}", if place == 0 { a.as_str() } else { "" }, vs.join(" , "))
+    } else {
+        let n = r.range(1, 3);
+        let fs: Vec<String> = (0..n)
+            .map(|i| {
+                let fpre = if (place == 1 && i == 0) || (place == 2 && i == n - 1) { a.as_str() } else { "" };
+                format!("{fpre}f{i} : i32")
+            })
+            .collect();
+        format!("{}struct {name} {{ {} }}", if place == 0 { a.as_str() } else { "" }, fs.join(" , "))
+    };
+    Key {
+        derive: derive.into(),
+        item,
+    }
+}
+
+pub const N_FAMILIES: usize = 9;
+pub const FAMILY_NAMES: [&str; N_FAMILIES] = ["try_into", "from_str", "mul_like", "error", "from_into", "fmt_bounds", "as_ref", "rename_all", "legacy_syntax"];
 
 /// derives each family exercises (a hot session keeps to them)
 pub const FAMILY_DERIVES: [&[&str]; N_FAMILIES] = [
@@ -476,6 +548,8 @@ pub const FAMILY_DERIVES: [&[&str]; N_FAMILIES] = [
     &["From", "Into"],
     &["Display", "Debug", "Binary", "Octal", "LowerHex", "UpperHex", "LowerExp", "UpperExp", "Pointer"],
     &["AsRef", "AsMut"],
+    &["Display", "Debug"],
+    &["Display", "Debug", "From", "Into", "Binary"],
 ];
 
 pub fn family(r: &mut Rng, which: usize) -> Key {
@@ -486,10 +560,49 @@ pub fn family(r: &mut Rng, which: usize) -> Key {
         3 => family_error(r),
         4 => family_from_into(r),
         5 => family_fmt(r),
-        _ => family_as_ref(r),
+        6 => family_as_ref(r),
+        7 => family_rename_all(r),
+        _ => family_legacy(r),
     }
 }
 
+
+/// The item without its generic parameters (`None` if it has none).
+pub fn strip_generics(key: &Key) -> Option<Key> {
+    let mut di: syn::DeriveInput = syn::parse_str(&key.item).ok()?;
+    if di.generics.params.is_empty() {
+        return None;
+    }
+    di.generics = syn::Generics::default();
+    Some(Key {
+        derive: key.derive.clone(),
+        item: di.to_token_stream().to_string(),
+    })
+}
+
+/// The item with its generic parameter *declarations* renamed (`<T>` -> `<Tq>`) while every use of the old
+/// names stays: the same type texts, now naming something that is not a parameter.
+pub fn rename_param_decls(key: &Key) -> Option<Key> {
+    let mut di: syn::DeriveInput = syn::parse_str(&key.item).ok()?;
+    let mut any = false;
+    for p in di.generics.params.iter_mut() {
+        if let syn::GenericParam::Type(t) = p {
+            t.ident = syn::Ident::new(&format!("{}q", t.ident), proc_macro2::Span::call_site());
+            any = true;
+        }
+    }
+    if !any {
+        return None;
+    }
+    Some(Key {
+        derive: key.derive.clone(),
+        item: di.to_token_stream().to_string(),
+    })
+}
+
+pub fn is_generic(key: &Key) -> bool {
+    syn::parse_str::<syn::DeriveInput>(&key.item).map(|d| !d.generics.params.is_empty()).unwrap_or(false)
+}
 
 /// A *twin* of an item: same derive, same type name, same generics, same number of variants / fields —
 /// but other variant names, field names, field types or order. What a memo keyed too coarsely (by name,
@@ -693,7 +806,18 @@ pub fn breaker(key: &Key, r: &mut Rng) -> Option<Key> {
             "fmt = \"{}\" , \"_0\"", "\"{}\"", "\"{}\" , _0", "\"{_0:?}\"", "types (i64)", "i64", "i64 , u8", "owned (i64)", "ref (i32) , owned",
             "repr", "forward , skip", "skip , skip", "",
         ];
-        let arg = *r.pick(VOCAB);
+        // half of the time a word this derive itself knows (or used to know)
+        const FMT: &[&str] = &["skip", "ignore", "fmt = \"{}\"", "fmt = \"{}\" , \"_0\"", "\"{}\"", "\"{_0:?}\"", "bound (T : Clone)", "bounds (T : Clone)",
+                               "rename_all = \"snake_case\"", "rename_all = \"nope\"", "transparent"];
+        const CONV: &[&str] = &["forward", "skip", "ignore", "types (i64)", "i64", "i64 , u8", "owned", "ref", "ref_mut", "owned (i64)", "ref (i32) , owned", "types (i64) , forward"];
+        const ERR: &[&str] = &["source", "backtrace", "not (source)", "not (backtrace)", "ignore", "forward", "source , backtrace"];
+        let own: &[&str] = match key.derive.as_str() {
+            "Display" | "Debug" | "Binary" | "Octal" | "LowerHex" | "UpperHex" | "LowerExp" | "UpperExp" | "Pointer" => FMT,
+            "From" | "Into" | "TryInto" | "AsRef" | "AsMut" | "IntoIterator" | "Unwrap" | "TryUnwrap" | "IsVariant" | "Deref" | "DerefMut" | "Index" | "IndexMut" => CONV,
+            "Error" => ERR,
+            _ => VOCAB,
+        };
+        let arg = if r.chance(1, 2) { *r.pick(own) } else { *r.pick(VOCAB) };
         let src = format!("# [{name} ({arg})] struct X ;");
         let attr = syn::parse_str::<syn::DeriveInput>(&src).ok().and_then(|x| x.attrs.into_iter().next());
         if let Some(attr) = attr {
